@@ -43,13 +43,17 @@
      C03_td_inv2_partial / C03_td_histories2_partial: TreeInv /\ DF along op2 histories without OpLoad outside Known2
        (= Inv.Known on Op1, Known_dup_failed on OpDuplicate).
      C03_stale_histories2_partial: in every world reached that way from the empty world, every place-dependent request
-       through a handle of a detached (removed) element fails and leaves the world unchanged. *)
+       through a handle of a detached (removed) element fails and leaves the world unchanged.
+     C03_stale_histories2_example: non-vacuity (tiny tables: build /a/b/c, remove /a/b, duplicate the model).
+     C03_stale_every_world: the requests that do not ask for min_version alone (all place-dependent ones except
+       create_sub_element(_at), set_attribute, get_or_create_sub_element) fail through a detached handle in EVERY world,
+       so also after loads and inside the known classes; what stays open across OpLoad is DF for these four. *)
 From AV Require Import Base.Bytes Base.Outcome Hash.HashModel Tree.Heap Tree.Ops Tree.Script Tree.Inv Tree.Iter
   Tree.InvProofsTree Tree.InvProofsNav Tree.InvProofs Tree.StaleProofs Tree.IterProofs Tree.IterProofsFile
   Tree.InvProofsDetFiles Tree.InvProofsDetFilesMain Tree.InvProofsOp2 Tree.InvExamples
   Tree.InvProofsChars Tree.InvProofsChars5 Tree.InvProofsOrigins3 Tree.InvProofsReal Tree.InvProofsRealTables Spec.SpecReal.
 From AV Require Import Tree.Script2 Tree.InvLoad Tree.InvProofsOp2Full Tree.InvProofsLoadExamples Tree.InvProofsOp2Lift
-  Tree.InvProofsOp2Real Tree.InvEBase Tree.InvProofsLoadLive Tree.InvProofsOp2Live Tree.InvProofsOp2Rej Tree.InvE_Main Tree.InvL_Base Tree.InvL_Main Tree.InvL_Op2 Tree.InvProofsStale2.
+  Tree.InvProofsOp2Real Tree.InvEBase Tree.InvProofsLoadLive Tree.InvProofsOp2Live Tree.InvProofsOp2Rej Tree.InvE_Main Tree.InvL_Base Tree.InvL_Main Tree.InvL_Op2 Tree.InvProofsStale2 Tree.InvProofsStale2Examples.
 From AV Require Xml.TablesOk.
 From AV Require Tree.Load Tree.MergeSpec Tree.LoadProofsRefuted.
 Open Scope string_scope.
@@ -597,6 +601,23 @@ Theorem C03_stale_histories2_partial :
     Detached w h -> principal o = Some h -> place_dependent o = true ->
     Inv.run T tab_el tab_en check_fn LATEST root_attrs o w = Val (r, w') -> w' = w /\ failed r.
 Proof. exact stale_fails_histories2_partial. Qed.
+
+Theorem C03_stale_every_world :
+  forall (T : tables) (tab_el tab_en : nametab) (check_fn : N -> list N -> res bool) (LATEST : N)
+         (root_attrs : list (N * cdata)) (o : op) (h : id) (w : world) (r : out value) (w' : world),
+    needs_version_only o = false -> Detached w h -> principal o = Some h -> place_dependent o = true ->
+    Inv.run T tab_el tab_en check_fn LATEST root_attrs o w = Val (r, w') -> w' = w /\ failed r.
+Proof. exact stale_fails_every_world. Qed.
+
+Theorem C03_stale_histories2_example :
+  run_ops2 Tiny.T0 Tiny.nt0 Tiny.nt0 Tiny.nt0 Tiny.chk0 Tiny2.fp0 Tiny2.ff0 1 0 0 0 [] Tiny2.opsD empty_world = Val Tiny2.wD /\
+  clean_stale_ops2 Tiny.T0 Tiny.nt0 Tiny.nt0 Tiny.nt0 Tiny.chk0 Tiny2.fp0 Tiny2.ff0 1 0 0 0 [] Tiny2.opsD empty_world = true /\
+  In (OpDuplicate 0) Tiny2.opsD /\
+  (List.length (w_models Tiny2.wD) = 2%nat /\ map m_root (w_models Tiny2.wD) = [0; 7]) /\
+  Detached Tiny2.wD 5 /\
+  (principal (OpCreateNamed 5 Tiny.PKG Tiny.na) = Some 5 /\ place_dependent (OpCreateNamed 5 Tiny.PKG Tiny.na) = true /\
+   exists e, Inv.run Tiny.T0 Tiny.nt0 Tiny.nt0 Tiny.chk0 1 [] (OpCreateNamed 5 Tiny.PKG Tiny.na) Tiny2.wD = Val (ER e, Tiny2.wD)).
+Proof. exact Tiny2.wD_example. Qed.
 
 (* ---------- the finding: an error after the point of no return leaves an orphan ---------- *)
 Theorem C03_failed_reparent_refuted :
